@@ -30,7 +30,7 @@ def per_end(obs):
             forged = bool(obs["injected"] and inj and inj[0] == e and i == inj[1] - 1)
             name = TYPEMAP.get(t, "APP" if o["newkeys_idx"] is not None and i > o["newkeys_idx"] else "UNKNOWN")
             pk.append({"t": name, "seq": o["seqs_all"][i], "forged": forged})
-        out.append({"end": e, "packets": pk, "attacked": bool(obs["injected"] or obs["dropped"]),
+        out.append({"kind": "handshake", "end": e, "packets": pk, "attacked": bool(obs["injected"] or obs["dropped"]),
                     "obs": {"established": o["established"], "agreed": o["agreed"], "kexinit_in_seq": o["kexinit_in_seq"],
                             "first_in_seq": o["first_in_seq_after_newkeys"], "first_out_seq": o["first_out_seq_after_newkeys"],
                             "recv": o["recv_after_newkeys"], "peer_sent": obs["ends"][peer]["sent_after_newkeys"]},
@@ -47,6 +47,13 @@ def run(c):
     if not c.quick:
         c.mc_holds("StrictKex", cfg_text(constants=consts(True, True, inj=2, drop=1), invariants=INVS), name="2 injections + 1 deletion", timeout=1800)
         c.mc_holds("StrictKex", cfg_text(constants=consts(True, True, inj=1, drop=2, napp=3), invariants=INVS), name="1 injection + 2 deletions, 3 app msgs", timeout=1800)
+
+    # re-exchanges: the mode is latched by the initial exchange, counters restart at every NEWKEYS
+    rk = {"RepeatsMarker": "<-RM", "MaxRekeys": 2, "MaxTraffic": 3}
+    c.mc_holds("StrictRekey", cfg_text(constants=dict(rk, Latched=True), invariants=["StrictStays", "ResetAtEveryNewkeys", "InSync"]),
+               name="re-exchanges, one end stops repeating the marker, mode latched")
+    c.mc("StrictRekey", cfg_text(constants=dict(rk, Latched=False), invariants=["StrictStays", "ResetAtEveryNewkeys", "InSync"]),
+         expect="StrictStays|ResetAtEveryNewkeys|InSync", name="sensitivity: strict mode recomputed from every KEXINIT")
 
     rnd = random.Random(c.seed)
     kexes = ["curve25519-sha256@libssh.org", "diffie-hellman-group14-sha256"]
@@ -90,6 +97,20 @@ def run(c):
         c.case(key=(ac, as_, kex, str(inj), str(drop)),
                sample={"scenario": metas[(ac, as_)][-2], "client": recs[0]["obs"], "client_consumed": recs[0]["packets"][:8]}
                if inj and drop and ac and as_ else None)
+    # real re-exchanges after a strict initial handshake, with a peer that advertises the marker only once
+    for once in ("none", "c", "s"):
+        for inits in ((["c"], ["s"], ["c", "s"]) if c.quick else (["c"], ["s"], ["c", "s"], ["s", "c", "c"], ["s", "s"])):
+            obs = sk.run_rekeys(once, inits, kex=kexes[0] if c.quick else rnd.choice(kexes[:6]))
+            for e in ("c", "s"):
+                o = obs["ends"][e]
+                rec = {"kind": "rekeys", "end": e, "packets": [], "attacked": False,
+                       "obs": {"agreed": o["agreed"], "in_seq": o["in_seq_after_newkeys"], "out_seq": o["out_seq_after_newkeys"],
+                               "all_ok": bool(all(r["ok"] and r["echo"] for r in obs["rekeys"]) and o["active"]),
+                               "established": True, "kexinit_in_seq": 0, "first_in_seq": 0, "first_out_seq": 0, "recv": [], "peer_sent": []}}
+                batches.setdefault((True, True), []).append(rec)
+                metas.setdefault((True, True), []).append({"kex": obs["kex"], "inject": ["rekey", once, "+".join(inits)], "drop": [],
+                                                           "adv": [True, True], "app": obs["rekeys"], "exc": ""})
+            c.case(key=("rekeys", once, tuple(inits)), sample=obs if once == "c" and len(inits) == 2 else None)
     for (ac, as_), batch in batches.items():
         res, _ = c.trace("StrictKex_Trace", batch, cfg_text(spec="TSpec", constants=consts(ac, as_), invariants=["Report"]))
         if len(res["DONE"]) != len(batch):
@@ -99,7 +120,8 @@ def run(c):
         def describe(tid, clause, row, batch=batch, meta=metas[(ac, as_)]):
             r = batch[tid - 1]
             sc = meta[tid - 1]
-            key = "%s:%s:%s" % (clause, r["end"], (sc["inject"][2] if sc["inject"] else "noinject") + ("+drop" if sc["drop"] else ""))
+            key = "%s:%s:%s" % (clause, r["end"], (("marker_once_" + sc["inject"][1]) if sc["inject"] and sc["inject"][0] == "rekey"
+                                                   else (sc["inject"][2] if sc["inject"] else "noinject")) + ("+drop" if sc["drop"] else ""))
             return key, "%s at end %s: scenario %r, observation %r" % (clause, r["end"], sc, {k: v for k, v in r["obs"].items() if k not in ("recv", "peer_sent")}), r
         c.verdicts(res["VERDICT"], describe)
     c.rule = "real handshakes per kex method: untouched; each forged type (IGNORE, DEBUG, UNIMPLEMENTED, unknown, duplicate KEXINIT, SERVICE_REQUEST) before each plaintext position of each direction; injection + deletion of the 1st/2nd encrypted packet (Terrapin); single deletions; strict advertised on/off per side; distinct = scenario tuple"
